@@ -178,6 +178,8 @@ pub struct ObjInfo {
     pub destroyed: bool,
     pub detach: u32,
     pub handed_over: bool,
+    /// `Manager::detach` for this object is in progress outside the slots lock (the pool let go of it)
+    pub detaching: bool,
     pub orphan: bool,
     pub handouts: u32,
     /// Metrics::recycled of the last hand-out, as ns since the world was created
@@ -229,7 +231,7 @@ impl Truth {
         self.objs
             .iter()
             .enumerate()
-            .filter(|(_, o)| !o.destroyed && !o.handed_over)
+            .filter(|(_, o)| !o.destroyed && !o.handed_over && !o.detaching)
             .map(|(i, _)| i as u32 + 1)
             .collect()
     }
@@ -270,6 +272,8 @@ pub(crate) struct TaskCtx {
     pub(crate) at_gate: Cell<Option<(CallKind, usize)>>,
     pub(crate) keep: RefCell<Option<Vec<u32>>>,
     pub(crate) cur_op: Cell<&'static str>,
+    /// asks the real pool whether its slots mutex is free right now (managed harness only)
+    pub(crate) lock_free: Option<Box<dyn Fn() -> bool>>,
 }
 
 thread_local! {
@@ -436,6 +440,23 @@ impl Manager for Mgr {
         };
         t.calls.push(rec);
         t.info(obj.id).detach += 1;
+        drop(t);
+        // Manager::detach is user code.  Called while the slots mutex is held nobody can get in the way;
+        // called outside of it (take, over-capacity return, rejected idle object) every other thread may
+        // run while the call is in progress: a schedule point.  The specification has no step for it (the
+        // call touches no state of the pool), so the controller treats the park as a stuttering step.
+        if let Some(c) = c {
+            if c.lock_free.as_ref().map(|f| f()).unwrap_or(false) {
+                // (idx 1: inside get(), completed at once by the controller)
+                let eager = if c.cur_op.get() == "get" { 1 } else { 0 };
+                c.report(Report::AtCall { kind: CallKind::Detach, idx: eager, obj: obj.id, rc: 0, rec: false });
+                match c.recv() {
+                    Cmd::Outcome(_) => {}
+                    Cmd::Exit => exit_thread(),
+                    other => panic!("harness bug: command {:?} inside detach", other),
+                }
+            }
+        }
     }
 }
 
@@ -565,6 +586,17 @@ fn task_main(ix: usize, sh: Arc<Shared>, cmd_rx: Receiver<Cmd>, rep_tx: Sender<(
         at_gate: Cell::new(None),
         keep: RefCell::new(None),
         cur_op: Cell::new("none"),
+        lock_free: {
+            let sh2 = sh.clone();
+            Some(Box::new(move || {
+                let p = sh2.pool.lock().unwrap().clone();
+                p.map(|p| {
+                    let s = p.verif_snapshot();
+                    s.slots.is_some() && !s.poisoned
+                })
+                .unwrap_or(false)
+            }))
+        },
     });
     CTX.with(|x| *x.borrow_mut() = Some(c.clone()));
     deadpool::verif::set_hook(Some(Box::new(park_point)));
@@ -795,6 +827,11 @@ pub struct World {
     pub pre_woken: bool,
     pub pre_closed: bool,
     pub pre_idle: Vec<u32>,
+    /// tasks parked inside `Manager::detach` outside the slots lock at the end of a return / take:
+    /// shown as idle (the specification has no step for the call), released before their next command
+    pub lazy: Vec<bool>,
+    /// how many such parks there were
+    pub lazy_parks: usize,
 }
 
 #[derive(Clone, Debug, Default, PartialEq, Eq, Serialize)]
@@ -855,15 +892,70 @@ impl World {
                     .unwrap(),
             ));
         }
-        World { cfg, sh, cmd_tx, rep_rx, ts: vec![TState::Idle; n], last: vec![None; n], threads, hung: false, pre_woken: false, pre_closed: false, pre_idle: vec![] }
+        World { cfg, sh, cmd_tx, rep_rx, ts: vec![TState::Idle; n], last: vec![None; n], threads, hung: false, pre_woken: false, pre_closed: false, pre_idle: vec![], lazy: vec![false; n], lazy_parks: 0 }
     }
 
     pub fn task_ix(&self, name: &str) -> Option<usize> {
         self.cfg.tasks.iter().position(|t| t == name)
     }
 
-    /// Send a command to task `t` and wait until it parks again.
+    /// Send a command to task `t` and wait until it parks again.  Parks inside `Manager::detach` are
+    /// stuttering steps: inside a get() the call is completed at once; at the end of a return / take
+    /// (or wherever else changed code calls it without the lock) the task stays inside the call, looking
+    /// idle, while the other tasks run, and completes it before its own next command.
     pub fn send(&mut self, t: usize, cmd: Cmd) -> TState {
+        if self.lazy[t] {
+            self.lazy[t] = false;
+            let mut st = self.send_raw(t, Cmd::Outcome(Outcome::Ok));
+            st = self.settle(t, st);
+            if st != TState::Idle {
+                // (changed code: the call did not end the operation; the command cannot be given)
+                return st;
+            }
+        }
+        let st = self.send_raw(t, cmd);
+        self.settle(t, st)
+    }
+
+    fn settle(&mut self, t: usize, mut st: TState) -> TState {
+        loop {
+            match st {
+                TState::AtCall { kind: CallKind::Detach, idx, obj, .. } => {
+                    if obj > 0 && idx != 1 {
+                        self.sh.truth.lock().unwrap().info(obj).detaching = true;
+                    }
+                    if idx == 1 {
+                        st = self.send_raw(t, Cmd::Outcome(Outcome::Ok));
+                    } else {
+                        self.lazy[t] = true;
+                        self.lazy_parks += 1;
+                        self.ts[t] = TState::Idle;
+                        self.last[t] = Some(OpResult::Unit);
+                        return TState::Idle;
+                    }
+                }
+                other => return other,
+            }
+        }
+    }
+
+    /// complete every `Manager::detach` call that is still in progress
+    pub fn flush_lazy(&mut self) {
+        for _ in 0..8 {
+            for t in 0..self.ts.len() {
+                if self.lazy[t] {
+                    self.lazy[t] = false;
+                    let st = self.send_raw(t, Cmd::Outcome(Outcome::Ok));
+                    self.settle(t, st);
+                }
+            }
+            if !self.lazy.iter().any(|x| *x) {
+                break;
+            }
+        }
+    }
+
+    fn send_raw(&mut self, t: usize, cmd: Cmd) -> TState {
         if self.hung {
             return TState::Hung;
         }
@@ -928,16 +1020,27 @@ impl World {
     /// Drop the harness's handle of the pool (all task threads must be idle: they only
     /// hold clones while an operation is in progress).
     pub fn drop_pool(&mut self) {
+        self.flush_lazy();
         let p = self.sh.pool.lock().unwrap().take();
         self.sh.truth.lock().unwrap().pool_alive = false;
         drop(p);
     }
 
-    /// some task is parked while holding the slots mutex
+    /// some task is parked while holding the slots mutex.  Asked of the real mutex (try_lock while every
+    /// task is parked), not inferred from where the tasks are: code that calls the retain predicate or
+    /// sits in a resize loop WITHOUT the lock must be schedulable against everything else.
     pub fn lock_held(&self) -> bool {
-        self.ts.iter().any(|s| {
-            matches!(s, TState::AtPoint("m.resize.forget") | TState::AtPoint("m.resize.grow") | TState::AtCall { kind: CallKind::Pred, .. })
-        })
+        match self.pool() {
+            Some(p) => {
+                // (a poisoned mutex does not block anybody: every lock().unwrap() panics, which is data)
+                let s = p.verif_snapshot();
+                s.slots.is_none() && !s.poisoned
+            }
+            // (the harness gave up its handle: tasks in flight still hold clones)
+            None => self.ts.iter().any(|s| {
+                matches!(s, TState::AtPoint("m.resize.forget") | TState::AtPoint("m.resize.grow") | TState::AtCall { kind: CallKind::Pred, .. })
+            }),
+        }
     }
 
     pub fn snapshot(&self) -> Snap {
@@ -965,6 +1068,7 @@ impl World {
     /// Tear the world down.  Threads that are parked inside the code under test are
     /// abandoned (they never return into it).
     pub fn shutdown(mut self) {
+        self.flush_lazy();
         for t in 0..self.cmd_tx.len() {
             let idle = matches!(self.ts[t], TState::Idle);
             let _ = self.cmd_tx[t].send(Cmd::Exit);
